@@ -1031,6 +1031,10 @@ def rule_pk_rebuild(ctx):
                 if any(isinstance(s, ast.Return) and isinstance(s.value, ast.Name) and s.value.id == "self"
                        for s in walk_shallow(fi.node)):
                     problems.append("returns self: the 'copy' shares all state with the original")
+                miss = [a for a in census if a not in txt and "__dict__" not in txt]
+                if miss:
+                    problems.append("does not carry the instance attribute(s) %s over to the copy (neither named nor through __dict__): "
+                                    "e.g. a copied section forgets that it compares mnemonics case-insensitively" % miss)
             ctx.check(not problems, "PK.REBUILD", "%s.%s" % (q, h), fi, fi.node,
                       "%s.%s keeps the whole attribute census %s" % (cls.name, h, sorted(census)),
                       "%s.%s: %s" % (cls.name, h, "; ".join(problems)))
